@@ -29,23 +29,23 @@ func init() {
 
 // Opts is a provider configuration.
 type Opts struct {
-	Issuer      string // static issuer ("" = host-derived)
-	HostPath    string // path of a host-derived issuer
-	FwdHeaders  []string
-	UseFwd      bool // IssuerFromForwardedOrHost instead of IssuerFromHost
-	Insecure    bool
-	SigAlg      string
-	NoSigAlg    bool // leave SignatureAlgorithm empty
-	MetaSigAlg  string
-	WantSigned  string
-	TimeFormat  string
-	Endpoints   *provider.EndpointConfig
-	Metadata    *provider.Endpoint
-	Org         *provider.Organisation
-	Contact     *provider.ContactPerson
-	EncAlg      string
-	MetaIDP     *provider.MetadataIDPConfig
-	World       *sim.World
+	Issuer     string // static issuer ("" = host-derived)
+	HostPath   string // path of a host-derived issuer
+	FwdHeaders []string
+	UseFwd     bool // IssuerFromForwardedOrHost instead of IssuerFromHost
+	Insecure   bool
+	SigAlg     string
+	NoSigAlg   bool // leave SignatureAlgorithm empty
+	MetaSigAlg string
+	WantSigned string
+	TimeFormat string
+	Endpoints  *provider.EndpointConfig
+	Metadata   *provider.Endpoint
+	Org        *provider.Organisation
+	Contact    *provider.ContactPerson
+	EncAlg     string
+	MetaIDP    *provider.MetadataIDPConfig
+	World      *sim.World
 }
 
 // Env is one provider instance over one world.
